@@ -217,10 +217,10 @@ func (S) RunTape(t *sim.Tape, st *sim.Stats, keepLog bool) *sim.Outcome {
 			err = fs.InitDefaults(base)
 		} else {
 			esc := t.Choice(2, "cfg.esc")
-			sh := t.Choice(3, "cfg.shard")
-			w.bname = fmt.Sprintf("fsstore(esc=%s,shard=%s)", []string{"hex", "b32lower"}[esc], []string{"r12", "r122", "r133"}[sh])
+			sh := t.Choice(4, "cfg.shard")
+			w.bname = fmt.Sprintf("fsstore(esc=%s,shard=%s)", []string{"hex", "b32lower"}[esc], []string{"r12", "r122", "r133", "flat(user-defined)"}[sh])
 			err = fs.Init(base, []func(string) string{hexEsc, b32lower}[esc],
-				[]func(string, *[]string){sharding.Shard_r12, sharding.Shard_r122, sharding.Shard_r133}[sh])
+				[]func(string, *[]string){sharding.Shard_r12, sharding.Shard_r122, sharding.Shard_r133, shardFlat}[sh])
 		}
 		if err != nil {
 			o.Fail("init", "fsstore.Init", "Init failed on a healthy disk: %v", err)
@@ -1059,3 +1059,6 @@ func (S) Demos() map[string]func() *sim.Violation {
 		},
 	}
 }
+
+// shardFlat is a user-defined sharding function: no shard directories at all.
+func shardFlat(key string, shards *[]string) { *shards = append(*shards, key) }
